@@ -108,6 +108,8 @@ def _worker(pid, tier, task_q, res_q, chunk, qtimeout):
                         except Exception:
                             w = None
                     if w is not None:
+                        # obligations proved on this path: only these must also hold concretely in the replay
+                        w['proved'] = [[o['label'], o.get('sig')] for o in rec['obligations'] if o['status'] in ('ok', 'trivial')]
                         out['witnesses'].append(w)
                     if len(out['samples']) < 1:
                         out['samples'].append(dict(
